@@ -12,7 +12,8 @@ Import ListNotations.
 Require Import MD.PBC.Model MD.PBC.Proofs MD.Invar.Model MD.Invar.Proofs MD.Invar.Orth.
 From Coq Require Import Rdefinitions Raxioms RIneq.
 Close Scope R_scope.
-Require MD.Invar.RealRot MD.Invar.NeighShift MD.Neigh.Model.
+Require MD.Invar.RealRot MD.Invar.NeighShift MD.Neigh.Model MD.Invar.RealDerived.
+Require Import MD.Invar.DerivedModel MD.Invar.Derived.
 Open Scope Z_scope.
 
 (* ---- the algebra *)
@@ -255,3 +256,66 @@ Example neighborlist_example :
   nl_cur 10 2 [1; 9; 5] = [[false; true; false]; [true; false; false]; [false; false; false]].
 Proof. exact nl_example. Qed.
 Print Assumptions neighborlist_example.
+
+(* ======================================================================================================
+   DERIVED OBSERVABLES named by the statement (neighbour sets, contacts, hydrogen bonds, DRID, secondary structure):
+   exact integer predicates where the code's decision is polynomial in squared distances, and "every function of
+   the pair distances" over the reals for the rest. *)
+
+(* compute_neighbors without a cell: the reported index list is unchanged (cutoff^2 in the moved unit = s c^2) *)
+Theorem neighbors_invariant_general : forall M s, orth_scaled M s -> 0 < s -> forall tx ty tz c2 l query hay,
+  Forall (fun i => (i < length l)%nat) query -> Forall (fun i => (i < length l)%nat) hay ->
+  neighbors_obs (s * c2) (map (rigid M (tx, ty, tz)) l) query hay = neighbors_obs c2 l query hay.
+Proof. intros M s H Hs tx ty tz c2 l q h. exact (neighbors_orth M s H Hs tx ty tz c2 l q h). Qed.
+Print Assumptions neighbors_invariant_general.
+
+(* compute_contacts ('closest' schemes): the minimum pair distance of two atom groups scales like every distance *)
+Theorem contacts_invariant_general : forall M s, orth_scaled M s -> 0 < s -> forall tx ty tz l A B,
+  Forall (fun i => (i < length l)%nat) A -> Forall (fun i => (i < length l)%nat) B ->
+  contact_obs (map (rigid M (tx, ty, tz)) l) A B = option_map (Z.mul s) (contact_obs l A B).
+Proof. intros M s H Hs tx ty tz l A B. exact (contact_orth M s H Hs tx ty tz l A B). Qed.
+Print Assumptions contacts_invariant_general.
+
+(* baker_hubbard: d(H..A) < cutoff and angle(D-H..A) > 120 degrees, decided from the three squared distances
+   (law of cosines, as hbond.py does): the Boolean is unchanged, also under improper motions *)
+Theorem hbond_criterion_invariant_general : forall M s, orth_scaled M s -> 0 < s -> forall tx ty tz c2 l d h a,
+  (d < length l)%nat -> (h < length l)%nat -> (a < length l)%nat ->
+  hbond_obs (s * c2) (map (rigid M (tx, ty, tz)) l) d h a = hbond_obs c2 l d h a.
+Proof. intros M s H Hs tx ty tz c2 l d h a. exact (hbond_orth M s H Hs tx ty tz c2 l d h a). Qed.
+Print Assumptions hbond_criterion_invariant_general.
+
+(* over the reals: the whole matrix of pair distances, hence EVERY function of it (DRID, Kabsch-Sander energies and
+   the DSSP pattern, soft-min contacts, Wernet-Nilsson) is unchanged by x |-> R x + t, R^T R = I *)
+Theorem pair_distance_matrix_rigid_invariant_real : forall M t l, RealRot.orthogonal M ->
+  RealDerived.rpair_dists (map (RealRot.rrigid M t) l) = RealDerived.rpair_dists l.
+Proof. exact RealDerived.rpair_dists_rigid. Qed.
+Print Assumptions pair_distance_matrix_rigid_invariant_real.
+
+Theorem every_function_of_distances_rigid_invariant_real :
+  forall (A : Type) (F : list Rdefinitions.R -> A) M t l, RealRot.orthogonal M ->
+  F (RealDerived.rpair_dists (map (RealRot.rrigid M t) l)) = F (RealDerived.rpair_dists l).
+Proof. intros A F M t l. exact (RealDerived.function_of_distances_rigid F M t l). Qed.
+Print Assumptions every_function_of_distances_rigid_invariant_real.
+
+(* periodic systems: ALL minimum-image pair distances of the system are unchanged when every atom i is moved by its
+   own lattice vector t_i and the whole system by w (tie-free hypothesis for the pairs), hence every function of
+   them: periodic neighbour sets, contacts, hydrogen bonds *)
+Theorem mic_pair_distances_shift_invariant : forall p B (l ts : list vec) w, length ts = length l ->
+  (forall x y, In x l -> In y l -> tie_free_path p B (vsub y x)) ->
+  mic_pair_dists p B (map (fun xt => moved B w (fst xt) (snd xt)) (combine l ts)) = mic_pair_dists p B l.
+Proof. exact mic_pair_dists_shift_invariant. Qed.
+Print Assumptions mic_pair_distances_shift_invariant.
+
+Definition derived_l : list vec := [(0, 0, 0); (3, 0, 0); (-2, 1, 0); (0, 0, 9); (10, 10, 10)].
+Definition derived_g : vec -> vec := rigid (rotq 1 2 3 4) (7, -8, 9).
+Example derived_observables_example :
+  orth_scaled (rotq 1 2 3 4) 900 /\
+  (neighbors_obs 16 derived_l [0%nat] [1%nat; 2%nat; 3%nat; 4%nat] = [1%nat; 2%nat]) /\
+  (neighbors_obs (900 * 16) (map derived_g derived_l) [0%nat] [1%nat; 2%nat; 3%nat; 4%nat] = [1%nat; 2%nat]) /\
+  (contact_obs derived_l [0%nat; 1%nat] [3%nat; 4%nat] = Some 81) /\
+  (contact_obs (map derived_g derived_l) [0%nat; 1%nat] [3%nat; 4%nat] = Some (900 * 81)) /\
+  (hbond_obs 16 derived_l 2%nat 0%nat 1%nat = true) /\
+  (hbond_obs (900 * 16) (map derived_g derived_l) 2%nat 0%nat 1%nat = true) /\
+  (hbond_obs 16 derived_l 3%nat 0%nat 1%nat = false).
+Proof. split; [apply rotq_orth_scaled | vm_compute; repeat split; reflexivity]. Qed.
+Print Assumptions derived_observables_example.
